@@ -885,6 +885,8 @@ class Epoch(object):
         """
 
         if isinstance(year, (int, float)) and isinstance(doy, (int, float)):
+            if doy < 1 or doy >= (367 if Epoch.is_leap(year) else 366):
+                raise ValueError("Invalid input values")
             frac = float(doy % 1)
             doy = int(doy)
             # Meeus' algorithm (chapter 7) works for any year and for both
